@@ -1,1 +1,212 @@
-// placeholder
+//! Port of MPD's request line handling (client/ClientRead.cxx: cut at LF, StripRight, C string)
+//! and of util/Tokenizer.cxx (NextWord, NextParam = NextString | NextUnquoted) as used by
+//! command/AllCommands.cxx:command_process. Written from MPD 0.23's documented behaviour; this is
+//! the trusted base for C06/C07/C11/C13/C15.
+//!
+//! Not modelled (server policy, not tokenisation): the 16-argument limit and the 4 KiB input
+//! buffer limit. Generators stay below both.
+
+#[derive(Clone, Debug, PartialEq, Eq)]
+pub enum TokErr {
+    NoLineEnd,
+    NoCommand,
+    LetterExpected,
+    InvalidWordChar,
+    InvalidUnquotedChar,
+    MissingClosingQuote,
+    SpaceExpectedAfterQuote,
+}
+
+impl TokErr {
+    pub fn name(&self) -> &'static str {
+        match self {
+            TokErr::NoLineEnd => "no line end",
+            TokErr::NoCommand => "No command given",
+            TokErr::LetterExpected => "Letter expected",
+            TokErr::InvalidWordChar => "Invalid word character",
+            TokErr::InvalidUnquotedChar => "Invalid unquoted character",
+            TokErr::MissingClosingQuote => "Missing closing '\"'",
+            TokErr::SpaceExpectedAfterQuote => "Space expected after closing '\"'",
+        }
+    }
+}
+
+fn ws(b: u8) -> bool {
+    // IsWhitespaceFast / IsWhitespaceNotNull
+    b != 0 && b <= 0x20
+}
+
+/// Split what the client wrote into request lines (without the LF). The remainder without LF, if
+/// any, is returned separately.
+pub fn split_lines(written: &[u8]) -> (Vec<&[u8]>, &[u8]) {
+    let mut lines = Vec::new();
+    let mut p = 0;
+    while let Some(lf) = written[p..].iter().position(|&b| b == b'\n') {
+        lines.push(&written[p..p + lf]);
+        p += lf + 1;
+    }
+    (lines, &written[p..])
+}
+
+/// The line as MPD's command processor sees it: trailing bytes <= 0x20 stripped, cut at first NUL.
+pub fn effective_line(line: &[u8]) -> &[u8] {
+    let mut end = line.len();
+    while end > 0 && line[end - 1] <= 0x20 {
+        end -= 1;
+    }
+    let line = &line[..end];
+    match line.iter().position(|&b| b == 0) {
+        Some(n) => &line[..n],
+        None => line,
+    }
+}
+
+/// Tokenise one request line (without LF) the way MPD does.
+pub fn tokenize(line: &[u8]) -> Result<(Vec<u8>, Vec<Vec<u8>>), TokErr> {
+    let s = effective_line(line);
+    let mut p = 0usize;
+    // NextWord
+    if s.is_empty() {
+        return Err(TokErr::NoCommand);
+    }
+    if !s[0].is_ascii_alphabetic() {
+        return Err(TokErr::LetterExpected);
+    }
+    let start = p;
+    p += 1;
+    let mut name_end = s.len();
+    while p < s.len() {
+        let b = s[p];
+        if ws(b) {
+            name_end = p;
+            p += 1;
+            while p < s.len() && ws(s[p]) {
+                p += 1;
+            }
+            break;
+        }
+        if !(b.is_ascii_alphanumeric() || b == b'_') {
+            return Err(TokErr::InvalidWordChar);
+        }
+        p += 1;
+    }
+    if name_end == s.len() {
+        p = s.len();
+    }
+    let name = s[start..name_end].to_vec();
+    let mut args = Vec::new();
+    // NextParam until end
+    while p < s.len() {
+        if s[p] == b'"' {
+            // NextString
+            p += 1;
+            let mut out = Vec::new();
+            loop {
+                if p >= s.len() {
+                    return Err(TokErr::MissingClosingQuote);
+                }
+                let mut b = s[p];
+                if b == b'"' {
+                    break;
+                }
+                if b == b'\\' {
+                    p += 1;
+                    if p >= s.len() {
+                        return Err(TokErr::MissingClosingQuote);
+                    }
+                    b = s[p];
+                }
+                out.push(b);
+                p += 1;
+            }
+            // closing quote
+            p += 1;
+            if p < s.len() && !ws(s[p]) {
+                return Err(TokErr::SpaceExpectedAfterQuote);
+            }
+            while p < s.len() && ws(s[p]) {
+                p += 1;
+            }
+            args.push(out);
+        } else {
+            // NextUnquoted
+            let valid = |b: u8| b > 0x20 && b != b'"' && b != b'\'';
+            if !valid(s[p]) {
+                return Err(TokErr::InvalidUnquotedChar);
+            }
+            let st = p;
+            p += 1;
+            let mut end = s.len();
+            while p < s.len() {
+                if ws(s[p]) {
+                    end = p;
+                    p += 1;
+                    while p < s.len() && ws(s[p]) {
+                        p += 1;
+                    }
+                    break;
+                }
+                if !valid(s[p]) {
+                    return Err(TokErr::InvalidUnquotedChar);
+                }
+                p += 1;
+            }
+            if end == s.len() {
+                p = s.len();
+            }
+            args.push(s[st..end].to_vec());
+        }
+    }
+    Ok((name, args))
+}
+
+/// Self-test pairs: protocol document ("Escaping String Values") and Tokenizer test style cases.
+pub fn selftest() -> Result<(), String> {
+    let ok = |line: &str, name: &str, args: &[&str]| -> Result<(), String> {
+        match tokenize(line.as_bytes()) {
+            Ok((n, a)) => {
+                let a: Vec<String> = a.iter().map(|x| String::from_utf8_lossy(x).to_string()).collect();
+                if n != name.as_bytes() || a != args {
+                    Err(format!("tokenizer self-test: {:?} -> {:?} {:?}, expected {:?} {:?}", line, String::from_utf8_lossy(&n), a, name, args))
+                } else {
+                    Ok(())
+                }
+            }
+            Err(e) => Err(format!("tokenizer self-test: {:?} -> error {:?}, expected {:?} {:?}", line, e, name, args)),
+        }
+    };
+    let err = |line: &str, e: TokErr| -> Result<(), String> {
+        match tokenize(line.as_bytes()) {
+            Err(x) if x == e => Ok(()),
+            other => Err(format!("tokenizer self-test: {:?} -> {:?}, expected error {:?}", line, other, e)),
+        }
+    };
+    // protocol document: find "(Artist == \"foo\\'bar\\\"\")"  -> one argument (Artist == "foo\'bar\"")
+    ok(r#"find "(Artist == \"foo\\'bar\\\"\")""#, "find", &[r#"(Artist == "foo\'bar\"")"#])?;
+    ok("a  b", "a", &["b"])?;
+    ok(r#"a "x y" z"#, "a", &["x y", "z"])?;
+    ok(r#"a "" z"#, "a", &["", "z"])?;
+    ok("status", "status", &[])?;
+    ok("status   \t ", "status", &[])?;
+    ok("a b\\c", "a", &["b\\c"])?;
+    ok("a1_b x", "a1_b", &["x"])?;
+    ok("a \"x\\\\y\"", "a", &["x\\y"])?;
+    ok("a \"x\\ay\"", "a", &["xay"])?;
+    ok("a b\tc\rd", "a", &["b", "c", "d"])?;
+    ok("a b\0c", "a", &["b"])?;
+    ok("play 1:2", "play", &["1:2"])?;
+    ok("a é€😀", "a", &["é€😀"])?;
+    err("a x'y", TokErr::InvalidUnquotedChar)?;
+    err("a 'x'", TokErr::InvalidUnquotedChar)?;
+    err(r#"a "x"y"#, TokErr::SpaceExpectedAfterQuote)?;
+    err(r#"a "x"#, TokErr::MissingClosingQuote)?;
+    err(r#"a "x\"#, TokErr::MissingClosingQuote)?;
+    err(r#"a \""#, TokErr::InvalidUnquotedChar)?;
+    err("_a", TokErr::LetterExpected)?;
+    err("1a", TokErr::LetterExpected)?;
+    err(" a", TokErr::LetterExpected)?;
+    err("", TokErr::NoCommand)?;
+    err("   ", TokErr::NoCommand)?;
+    err("a-b", TokErr::InvalidWordChar)?;
+    Ok(())
+}
